@@ -515,6 +515,12 @@ func c04Gen(rt *rapid.T) c04Case {
 		c.ins = []tensor.Tensor{X}
 		c.feature = fmt.Sprintf("offset=%d,scale=%d,features=%d", no, ns, f)
 		r := dotRef{shape: []int{nS, f}, k: 2}
+		if nS == 1 && rapid.Bool().Draw(rt, "rank1Input") {
+			// a single sample given as a vector of features
+			c.ins = []tensor.Tensor{toDtype(c.dt, []int{f}, xv)}
+			c.feature += ",rank-1-input"
+			r.shape = []int{f}
+		}
 		for i := 0; i < nS; i++ {
 			for j := 0; j < f; j++ {
 				o, s := float64(off[j%no]), float64(sc[j%ns])
@@ -639,6 +645,12 @@ func TestC04(t *testing.T) {
 			ev.Class("C04", "instance-reused")
 			if d := reuseDifferential(c.op, c.node, other.ins, c.ins); d != "" {
 				rt.Fatalf("C04 violated by %v after the same operator instance served %v: %s", c, other, d)
+			}
+		}
+		if rapid.IntRange(0, 5).Draw(rt, "sameRequestTwice") == 0 {
+			ev.Class("C04", "instance-served-the-same-request-before")
+			if d := reuseDifferential(c.op, c.node, cloneTs(c.ins), cloneTs(c.ins)); d != "" {
+				rt.Fatalf("C04 violated by %v when one operator instance answers the request a second time: %s", c, d)
 			}
 		}
 		if len(c.ins) >= 2 && rapid.IntRange(0, 5).Draw(rt, "sharedParams") == 0 {
